@@ -26,10 +26,10 @@ def run(ctx):
     rep = ctx.report
     R1 = rep.rule('C14.R1', 'RECORDING is thread-local and is named only inside hot_reloading::records', floor=2)
     R2 = rep.rule('C09.R1', 'nesting discipline of record / no_record (shared with C09)', floor=5)
-    R3 = rep.rule('C14.R3', 'Record::insert_* inserts only for the recording cache (reloader pointer equality)', floor=3)
+    R3 = rep.rule('C14.R3', 'a dependency is inserted into a Record only for the recording cache (reloader pointer equality)', floor=2)
     R4 = rep.rule('C14.R4', 'the outer asset depends on the nested asset: the asset record dominates the nested load; nested recording iff hot-reloaded and reloader present', floor=4)
-    R5 = rep.rule('C14.R5', 'who-may-record: insert_* <- add_*record <- Cache impl only', floor=6)
-    R6 = rep.rule('C14.R6', 'a file dependency is (id, ext) in that order on the recording side and on the event side', floor=4)
+    R5 = rep.rule('C14.R5', 'who-may-record: Record insertions <- add_*record <- Cache impl only; the record comes from this thread\'s RECORDING cell', floor=5)
+    R6 = rep.rule('C14.R6', 'a file dependency is (id, ext) in that order on the recording side and on the event side', floor=2)
     for cfg, F in ctx.hr_cfgs():
         r6(R6, cfg, F)
         R6.finish_cfg(cfg)
@@ -75,26 +75,46 @@ def r1(R1, cfg, F):
     R1.check(bool(users) and not outside, cfg, REC + 'RECORDING', 'named-only-in-records', 'RECORDING is used outside hot_reloading::records: %s' % outside)
 
 
-def r3(R3, cfg, F):
-    for kind in ('asset', 'file', 'dir'):
-        b = F.body(REC + 'Record::insert_' + kind)
-        if not b:
-            R3.missing(cfg, 'Record::insert_' + kind)
+def record_inserts(F):
+    """the HashSet<Dependency>::insert calls of the recording module that act on a Record's `records` (wherever the
+    module puts them: Record::insert_asset/_file/_dir today, one merged method tomorrow)"""
+    out = []
+    for b in F.fn_bodies():
+        if not b.path.startswith(REC):
             continue
-        eq = [c for c in b.calls() if c.callee and c.callee.name == 'eq' and 'const_ptr' in c.callee.best]
-        ins = [c for c in b.calls() if c.callee and c.callee.name == 'insert' and 'HashSet' in c.callee.best]
-        ok = len(eq) == 1 and len(ins) == 1
-        if ok:
-            a0, a1 = b.access_path(eq[0].args[0]), b.access_path(eq[0].args[1])
-            ok = a0 == ['arg1', '*', 'reloader', '&'] and b.origins(eq[0].args[1]) == {('arg', 2)}
-            sw = [bb for bb, t in b.terms() if t['k'] == 'switch' and b.access_path(t['discr']) == ['call@bb%d' % eq[0].bb]]
-            ok = ok and len(sw) == 1
-            if ok:
-                true = [d for d, lab in b.edges(sw[0]) if lab != 'sw:0']
-                ok = len(true) == 1 and ins[0].bb not in b.reachable([0], removed_edges=[(sw[0], true[0])])
-                dm = b.call_roots(ins[0].args[0])
-                ok = ok and len(dm) == 1 and 'records' in (b.access_path(dm[0].args[0]) or []) and (b.access_path(dm[0].args[0]) or [''])[0] == 'arg1'
-        R3.check(ok, cfg, b.path, 'insert-guarded-by-reloader-identity', 'a dependency must be recorded only when the recording cache is the cache being read (self.reloader == reloader)', b.loc())
+        for c in b.calls():
+            if c.callee and c.callee.name == 'insert' and 'HashSet' in c.callee.best and c.args:
+                recv = common.strip_refs(common.deep_path(b, c.args[0]))
+                r = b.call_roots(c.args[0])
+                if 'records' not in recv and len(r) == 1 and r[0].args:
+                    recv = common.strip_refs(common.deep_path(b, r[0].args[0]))      # through DerefMut of Dependencies
+                if 'records' in recv:
+                    out.append((b, c, recv))
+    return out
+
+
+def r3(R3, cfg, F):
+    ins = record_inserts(F)
+    if not ins:
+        R3.missing(cfg, 'an insertion into Record.records')
+    for b, c, recv in ins:
+        ok = False
+        for sw, tgt, lab, tst in common.guards_of(b, c.bb):
+            if tst[0] != 'val' or lab == 'sw:0' or not tst[1] or not tst[1][0].startswith('call@bb'):
+                continue
+            eq = [x for x in b.calls() if 'call@bb%d' % x.bb == tst[1][0]]
+            if not eq or not eq[0].callee or len(eq[0].args) < 2:
+                continue
+            nm = eq[0].callee.best
+            if not (eq[0].callee.name == 'eq' and ('const_ptr' in nm or 'std::ptr::eq' == nm or nm.endswith('ptr::eq'))):
+                continue
+            sides = [(common.strip_refs(common.deep_path(b, a)), a['place']['ty'] if a['k'] in ('copy', 'move') else '') for a in eq[0].args[:2]]
+            mine = [x for x in sides if x[0][:1] == recv[:1] and x[0][-1:] == ['reloader']]
+            # the other side: a `&HotReloader` that does not come from the record itself (a parameter, possibly captured)
+            other = [x for x in sides if x not in mine and x[0] and x[0][0].startswith('arg') and 'reloader' not in x[0] and 'hot_reloading::HotReloader' in x[1]]
+            if len(mine) == 1 and len(other) == 1:
+                ok = True
+        R3.check(ok, cfg, b.path, 'insert-guarded-by-reloader-identity', 'a dependency must be recorded only when the recording cache is the cache being read (self.reloader == reloader)', c.loc())
     nb = F.body(REC + 'Record::new')
     if nb:
         ag = [s for _, _, s in nb.assigns() if s['rv']['k'] == 'aggregate' and s['rv'].get('adt') == REC + 'Record']
@@ -147,57 +167,68 @@ def r4(R4, cfg, F):
 
 
 def r5(R5, cfg, F):
-    pairs = (('insert_asset', 'add_record'), ('insert_file', 'add_file_record'), ('insert_dir', 'add_dir_record'))
-    for ins, add in pairs:
-        cs = sorted({c.body.root if c.body.kind == 'Closure' else c.body.path for c in F.calls_to('^' + re.escape(REC + 'Record::' + ins) + '$')})
-        R5.check(cs == [REC + add], cfg, REC + 'Record::' + ins, 'callers={%s}' % add, 'Record::%s may be called only from %s; callers %s' % (ins, add, cs))
-        ca = sorted({c.body.path for c in F.calls_to('^' + re.escape(REC + add) + '$')})
+    adds = [REC + 'add_record', REC + 'add_file_record', REC + 'add_dir_record']
+    for add in adds:
+        ca = sorted({c.body.path for c in F.calls_to('^' + re.escape(add) + '$')})
         allowed = {'<T as anycache::Cache>::read', '<T as anycache::Cache>::read_dir', '<T as anycache::Cache>::get_cached_entry_inner', '<T as anycache::Cache>::load_owned_entry'}
-        R5.check(bool(ca) and set(ca) <= allowed, cfg, REC + add, 'called-only-from-Cache-impl', '%s may be called only from the Cache impl; callers %s' % (add, ca))
-        # the closure records into the *current* thread's recorder only
-        cb = F.body(REC + add + '::{closure#0}')
-        if cb:
-            gt = [c for c in cb.calls() if c.callee and c.callee.best == 'std::cell::Cell::<T>::get']
-            call = [c for c in cb.calls() if c.callee and c.callee.best == REC + 'Record::' + ins]
-            ok = len(gt) == 1 and len(call) == 1 and cb.access_path(gt[0].args[0]) == ['arg2']
-            if ok:
-                src = cb.downcast_source({'k': 'copy', 'place': {'l': cb.call_roots(call[0].args[0])[0].args[0]['place']['l'], 'p': []}}) if cb.call_roots(call[0].args[0]) else None
-                r = cb.call_roots(call[0].args[0])
-                ok = len(r) == 1 and r[0].callee.name == 'as_mut'
-            R5.check(ok, cfg, cb.path, 'records-into-current-thread-recorder', '%s must add to the recorder found in this thread\'s RECORDING cell' % add, cb.loc())
-        else:
-            R5.missing(cfg, REC + add + '::{closure#0}')
+        R5.check(bool(ca) and set(ca) <= allowed, cfg, add, 'called-only-from-Cache-impl', '%s may be called only from the Cache impl; callers %s' % (add, ca))
+    # the functions that insert into a Record are reached only from the three add_*record entry points
+    holders = {b.root if b.kind == 'Closure' else b.path for b, c, _ in record_inserts(F)}
+    seen, work = set(holders), list(holders)
+    while work:
+        f = work.pop()
+        if f in adds:
+            continue
+        for c in F.all_calls():
+            if c.callee and (c.callee.best == f or c.callee.resolved == f):
+                r = c.body.root if c.body.kind == 'Closure' else c.body.path
+                if r not in seen:
+                    seen.add(r)
+                    work.append(r)
+    outside = sorted(x for x in seen if not x.startswith(REC))
+    tops = sorted(x for x in seen if x in adds)
+    R5.check(not outside and tops == sorted(adds), cfg, REC + 'Record', 'insertions-reached-only-from-add_*record',
+             'insertions into a Record must be reachable from add_record / add_file_record / add_dir_record only; also reached from %s, entry points %s' % (outside, tops))
+    # the Record written is the one found in this thread's RECORDING cell: every &mut Record of the module is made by
+    # NonNull::as_mut on the Some payload of Cell::get
+    ams = [c for c in F.all_calls() if c.callee and c.callee.name == 'as_mut' and 'NonNull' in c.callee.best and c.body.path.startswith(REC)
+           and 'records::Record' in (c.args[0]['place']['ty'] if c.args and c.args[0]['k'] in ('copy', 'move') else '')]
+    if not ams:
+        R5.missing(cfg, 'NonNull::<Record>::as_mut in the recording module')
+    for c in ams:
+        b = c.body
+        ap = common.strip_refs(common.deep_path(b, c.args[0]))
+        src = [x for x in b.calls() if ap and 'call@bb%d' % x.bb == ap[0]]
+        ok = bool(src) and src[0].callee and src[0].callee.best == 'std::cell::Cell::<T>::get' and ap[1:3] == ['as:Some', '0']
+        R5.check(ok, cfg, b.path, 'records-into-current-thread-recorder', 'the Record that is written must be the one found in this thread\'s RECORDING cell (Cell::get -> Some -> as_mut); it comes from %s' % ap, c.loc())
+    # nothing else in the crate makes a `&mut Record` out of a pointer
+    for b in F.fn_bodies():
+        if b.path.startswith(REC):
+            continue
+        for c in b.calls():
+            if c.callee and 'NonNull' in c.callee.best and c.callee.name in ('as_mut', 'as_ptr') and c.args and c.args[0]['k'] in ('copy', 'move') \
+                    and 'records::Record' in c.args[0]['place']['ty']:
+                R5.bad(cfg, b.path, 'record-pointer-used-outside-records', 'the pointer to the current Record is dereferenced outside hot_reloading::records', c.loc())
 
 
 def r6(R6, cfg, F):
     """Dependency::File(id, ext): both components are SharedStrings, so swapping them type-checks and makes every
     look-up of a notified file miss."""
-    b = F.body(REC + 'Record::insert_file')
-    if not b:
-        R6.missing(cfg, 'Record::insert_file')
-    else:
-        ag = [s for _, _, s in b.assigns() if s['rv']['k'] == 'aggregate' and s['rv'].get('adt') == REC + 'Dependency' and s['rv'].get('variant_name') == 'File']
-        ok = len(ag) == 1 and [b.origins(o) for o in ag[0]['rv']['ops']] == [{('arg', 3)}, {('arg', 4)}]
-        sig = F.fns.get(b.path, {})
-        R6.check(ok, cfg, b.path, 'File(id,ext)=(arg id, arg ext)', 'insert_file(reloader, id, ext) must record Dependency::File(id, ext) in that order', b.loc())
-    cb = F.body(REC + 'add_file_record::{closure#0}')
-    ob = F.body(REC + 'add_file_record')
-    if not cb or not ob:
-        R6.missing(cfg, 'add_file_record')
-    else:
-        call = [c for c in cb.calls() if c.callee and c.callee.best == REC + 'Record::insert_file']
-        lit = [s for _, _, s in ob.assigns() if s['rv']['k'] == 'aggregate' and s['rv'].get('closure') == cb.path]
-        ok = len(call) == 1 and len(lit) == 1
-        if ok:
-            from common import make_pt
-            pt = make_pt(r'Into<U>>::into$')
-            ups = [cb.origins(call[0].args[i], passthrough=pt) for i in (1, 2, 3)]
-            caps = [ob.origins(o) for o in lit[0]['rv']['ops']]
-            def cap_of(u):
-                u = list(u)
-                return caps[u[0][1]] if len(u) == 1 and u[0][0] == 'upvar' and u[0][1] < len(caps) else None
-            ok = [cap_of(u) for u in ups] == [{('arg', 1)}, {('arg', 2)}, {('arg', 3)}]
-        R6.check(ok, cfg, ob.path, 'passes-(reloader,id,ext)-in-order', 'add_file_record(reloader, id, ext) must hand (reloader, id, ext) to insert_file in that order', ob.loc())
+    # wherever the recording module builds Dependency::File(a, b): a is the `id` and b the `ext` parameter of
+    # add_file_record(reloader, id, ext), followed through conversions, closure captures and private helpers
+    entry = REC + 'add_file_record'
+    ags = []
+    for b in F.fn_bodies():
+        if b.path.startswith(REC) and 'into_owned' not in b.path and 'as_borrowed' not in b.path:
+            for _, _, st in b.assigns():
+                if st['rv']['k'] == 'aggregate' and st['rv'].get('adt') == REC + 'Dependency' and st['rv'].get('variant_name') == 'File':
+                    ags.append((b, st))
+    if not ags:
+        R6.missing(cfg, 'a Dependency::File built in hot_reloading::records')
+    for b, st in ags:
+        got = [common.trace_to_entry(F, b, o, {entry}) for o in st['rv']['ops']]
+        R6.check(got == [(entry, 2), (entry, 3)], cfg, b.path, 'File(id,ext)=(id, ext) of add_file_record',
+                 'add_file_record(reloader, id, ext) must record Dependency::File(id, ext) in that order; the fields come from %s' % got, '%s:%s' % (b.file, st.get('line')))
     rb = F.body('<T as anycache::Cache>::read')
     if rb:
         ar = [c for c in rb.calls() if c.callee and c.callee.best == REC + 'add_file_record']
